@@ -56,6 +56,33 @@ func damagedOffice(r *sim.Rand) ([]byte, string) {
 	if r.Pct(25) || len(all) == 0 {
 		all = append(all, faults.EnumZip(p)...)
 	}
+	all0 := all
+	if r.Pct(35) {
+		// the references that hold a package together: namespaces, relationship ids and
+		// targets in the main part and the relationship parts
+		var refs []faults.Fault
+		for _, f := range all {
+			main := strings.Contains(f.M, "workbook") || strings.Contains(f.M, "document") || strings.Contains(f.M, "presentation") ||
+				strings.Contains(f.M, ".rels") || strings.Contains(f.M, ".opf") || strings.Contains(f.M, "content.xml")
+			if main && (f.Kind == "path-attr" || f.Kind == "idref-attr") {
+				refs = append(refs, f)
+			}
+		}
+		if len(refs) > 0 {
+			all = refs
+		}
+		if r.Pct(30) {
+			var fam []faults.Fault
+			for _, f := range all0 {
+				if f.Kind == "idref-family-renamed" {
+					fam = append(fam, f)
+				}
+			}
+			if len(fam) > 0 {
+				all = fam
+			}
+		}
+	}
 	return faults.ApplyPackage(p, []faults.Fault{sim.Pick(r, all)}), "." + kind
 }
 
